@@ -41,13 +41,15 @@ T0 = 1_700_000_000
 
 
 def content(kind, ver):
-    # all versions of a file have the same length and differ in one character
+    # executable and unit: both versions have the same length and differ in one character (a size or
+    # mtime comparison cannot tell them apart); configuration: B is longer than A; eBPF object: A is longer
+    # than B (a copy that does not truncate its destination leaves the tail of the longer one behind)
     if kind == "exe":
         return ("#!/bin/sh\n# version %s\nif [ \"$1\" = \"--version\" ]; then echo 1.0.%s; fi\nexit 0\n" % (ver, {"A": 1, "B": 2}[ver])).encode()
     if kind == "config":
-        return ('{"logFolder":"/var/log/azure-proxy-agent","pollKeyStatusIntervalInSeconds":1%s}\n' % {"A": 5, "B": 7}[ver]).encode()
+        return ('{"logFolder":"/var/log/azure-proxy-agent","pollKeyStatusIntervalInSeconds":1%s%s}\n' % ({"A": 5, "B": 7}[ver], "" if ver == "A" else ',"hostGAPluginSupport":2,"ebpfProgramName":"ebpf_cgroup.o"')).encode()
     if kind == "ebpf":
-        return b"\x7fELF-ebpf-object-version-" + ver.encode() + b"\x00" * 64
+        return b"\x7fELF-ebpf-object-version-" + ver.encode() + b"\x00" * (96 if ver == "A" else 64) + b"end-of-object-" + ver.encode()
     return ("[Unit]\nDescription=Azure Proxy Agent %s\n[Service]\nExecStart=/usr/sbin/azure-proxy-agent\n" % ver).encode()
 
 
@@ -371,6 +373,9 @@ def main():
                         ok = False
                         break
                     cur = nxt
+                    if any(isinstance(v, str) and v.startswith("X:") for v in cur.sys + cur.backup):
+                        # content that is no version of the file: cannot be materialised again; judged right here
+                        break
                 headline += 1
                 if ok and cur.sys != s.sys:
                     violation("upgrade-not-reversible", "backup; install %s; restore from system %s ended with system %s" % (other, s.sys, cur.sys),
@@ -381,7 +386,7 @@ def main():
     res["coverage"] = {
         "states": len(states_seen), "transitions": transitions, "traces_validated_against_impl": transitions,
         "headline_round_trips": headline, "strace_write_set_audits": trace_audits, "depth_bound": depth, "exhaustive": True,
-        "rule": "BFS to depth %d over {backup, install (package A or B beside the tool), restore, uninstall service, uninstall package, purge} from 4 initial states (nothing installed; A installed; A + backup of A; A + stale backup of B), deduplicated on the canonical file tree (version of each of the four system files and four backup files); every transition runs the real release build of proxy_agent_setup on a freshly materialised tree with a recording systemctl; from every reachable complete installation the round trip backup, install other version, restore is executed; all versions of a file have equal length and realistic mtimes (package < backup < installed)" % depth,
+        "rule": "BFS to depth %d over {backup, install (package A or B beside the tool), restore, uninstall service, uninstall package, purge} from 4 initial states (nothing installed; A installed; A + backup of A; A + stale backup of B), deduplicated on the canonical file tree (version of each of the four system files and four backup files); every transition runs the real release build of proxy_agent_setup on a freshly materialised tree with a recording systemctl; from every reachable complete installation the round trip backup, install other version, restore is executed; the two versions of the executable and of the unit have equal length, the configuration grows and the eBPF object shrinks from A to B; realistic mtimes (package < backup < installed)" % depth,
         "samples": samples,
     }
     res["assumptions"] = ["restore always deletes the backup: the release CLI accepts no value for delete_backup",
